@@ -348,7 +348,7 @@ def _cached_build_cp_atom_payload(cache, sequence, restrict, payload_form=False)
 
 def _build_cp_atom_payload(sequence, restrict, payload_form=False, interner=None):
     locked = {}
-    ldefault = locked.setdefault
+    wildcards = []
 
     l = []
 
@@ -366,17 +366,45 @@ def _build_cp_atom_payload(sequence, restrict, payload_form=False, interner=None
             return ()
         return (f(i[0].key, i[0].neg, i[0].pos),)
 
+    def is_global(data):
+        return data.key == packages.AlwaysTrue or getattr(data.key, "is_simple", False)
+
+    def is_wildcard(flag):
+        return flag == "*" or flag.endswith("_*")
+
+    if any(is_wildcard(x) for data in i if not is_global(data) for x in data.neg):
+        # a '-*' / '-PREFIX_*' that only holds for some versions can't be folded
+        # into one global chunk; leave the sequence as it is.
+        return tuple(f(data.key, data.neg, data.pos) for data in i)
+
+    # '-PREFIX_*' of a global seen so far (they are later in the sequence): whatever
+    # an earlier chunk says about a flag with such a prefix is overridden.
+    prefixes = []
+
+    def is_locked(flag):
+        return flag in locked or any(flag.startswith(x) for x in prefixes)
+
     i = reversed(i)
 
     for data in i:
-        if data.key == packages.AlwaysTrue or getattr(data.key, "is_simple", False):
+        if is_global(data):
             for n in data.neg:
-                ldefault(n, False)
+                if is_wildcard(n):
+                    # kept apart from the flags; 'PREFIX_*' can also be the name of an enabled glob
+                    if n not in wildcards:
+                        wildcards.append(n)
+                elif not is_locked(n):
+                    locked[n] = False
             for p in data.pos:
-                ldefault(p, True)
+                if not is_locked(p):
+                    locked[p] = True
+            prefixes.extend(n[:-1] for n in data.neg if n.endswith("_*"))
+            if "*" in data.neg:
+                # everything earlier is wiped for every package
+                break
             continue
-        neg = tuple(x for x in data.neg if x not in locked)
-        pos = tuple(x for x in data.pos if x not in locked)
+        neg = tuple(x for x in data.neg if not is_locked(x))
+        pos = tuple(x for x in data.pos if not is_locked(x))
         if neg or pos:
             l.append((data.key, neg, pos))
 
@@ -385,14 +413,14 @@ def _build_cp_atom_payload(sequence, restrict, payload_form=False, interner=None
     # since the specific is later.  Plus it's reversed from what we want.
     # so we rebuild, but apply the same global trick as we go.
 
-    if not locked:
+    if not locked and not wildcards:
         # all is specific/non-simple, just reverse and return
         return tuple(f(*vals) for vals in reversed(l))
 
     new_l = [
         f(
             restrict,
-            tuple(k for k, v in locked.items() if not v),  # neg
+            tuple(wildcards) + tuple(k for k, v in locked.items() if not v),  # neg
             tuple(k for k, v in locked.items() if v),  # pos
         )
     ]
